@@ -236,6 +236,20 @@ def step (st : DState) (line : String) : DState × String :=
       | some es => showW2Map ((specWidth2Pairs es).reverse.map
           (fun e => ((e.1 : Rat), (WVal.num e.2.1, WVal.num e.2.2.1, WVal.num e.2.2.2))))
       | none => "bad-op")
+  | "gw" :: dw :: cid :: ws =>
+    (st, match (if dw == "-" then some none else (parseNum dw).map (fun n => some n.1)), cid.toNat?, parseWElems ws with
+      | some dw, some cid, some es => "R " ++ ratToString (glyphWidth (getWidths es) dw cid)
+      | _, _, _ => "bad-op")
+  | "gwv" :: dw2 :: cid :: ws =>
+    (st, match (if dw2 == "-" then some none else
+                  match (dw2.splitOn "|").mapM parseNum with
+                  | some [a, b] => some (some (a.1, b.1))
+                  | _ => none), cid.toNat?, parseWElems ws with
+      | some dw2, some cid, some es =>
+        match getWidths2 es with
+        | .ok m => "R " ++ ratToString (glyphWidthV m dw2 cid)
+        | .error e => showErr e
+      | _, _, _ => "bad-op")
   | _ => (st, "bad-op")
 
 partial def loop (h : IO.FS.Stream) (out : IO.FS.Stream) (st : DState) : IO Unit := do
